@@ -224,3 +224,62 @@ def stringValue (d : Doc) (n : Nat) : String :=
 
 end Doc
 end XalanModel.C02
+
+/-! ## well-formed pre-order tables
+
+`WF d` is a *decidable* conjunction of properties of the table itself (not of the walks): subtree
+intervals `[i, endOf i)` are nested, attributes directly follow their element, the DOM navigation
+functions point where the intervals say, and the ancestor chain of a node is given by interval
+containment.  Every document handed to the evaluator by the correspondence run is checked against it
+(`xm_c02` answers `doc` with the verdict); the axis theorems of `AxesProofs.lean` hold for every `d`
+with `WF d`. -/
+namespace XalanModel.C02
+namespace Doc
+
+/-- end (exclusive) of the subtree interval of `i`: the first later index that does not have `i` among its ancestors -/
+def endOf (d : Doc) (i : Nat) : Nat :=
+  (d.firstFrom (fun j => !(d.ancestors j).contains i) (i + 1)).getD d.length
+
+def onOpt {α : Type} (o : Option α) (s : α → Prop) (n : Prop) : Prop :=
+  match o with
+  | some a => s a
+  | none => n
+
+instance {α : Type} (o : Option α) (s : α → Prop) (n : Prop) [∀ a, Decidable (s a)] [Decidable n] : Decidable (onOpt o s n) := by
+  cases o <;> simp only [onOpt] <;> infer_instance
+
+structure WF (d : Doc) : Prop where
+  w1 : ∀ i, i < d.length → i < d.endOf i ∧ d.endOf i ≤ d.length
+  w4 : ∀ a, a < d.length → ∀ b, b < d.length → a < b → b < d.endOf a → d.endOf b ≤ d.endOf a
+  w2 : ∀ p, p < d.length → onOpt (d.firstChild p)
+        (fun c => p < c ∧ c < d.endOf p ∧ d.isAttr c = false ∧ ∀ j, j < d.length → p < j → j < c → d.isAttr j = true)
+        (∀ j, j < d.length → p < j → j < d.endOf p → d.isAttr j = true)
+  w3 : ∀ i, i < d.length → d.isAttr i = false → onOpt (d.nextSibling i)
+        (fun k => k = d.endOf i ∧ onOpt (d.parentOf i) (fun p => k < d.endOf p) False)
+        (onOpt (d.parentOf i) (fun p => d.endOf p = d.endOf i) True)
+  w5 : ∀ i, i < d.length → onOpt (d.parentOf i)
+        (fun p => p < i ∧ i < d.endOf p ∧ d.isAttr p = false ∧ ∀ x, x < d.length → p < x → x < i → d.endOf x ≤ i) True
+  w8 : ∀ i, i < d.length → d.isAttr i = false → d.endOf i < d.length → d.isAttr (d.endOf i) = false
+  wA : ∀ n, n < d.length → ∀ m, m < d.length → (d.ancestors m).contains n = (decide (n < m) && decide (m < d.endOf n))
+
+def wfB (d : Doc) : Bool :=
+  decide (∀ i, i < d.length → i < d.endOf i ∧ d.endOf i ≤ d.length) &&
+  decide (∀ a, a < d.length → ∀ b, b < d.length → a < b → b < d.endOf a → d.endOf b ≤ d.endOf a) &&
+  decide (∀ p, p < d.length → onOpt (d.firstChild p)
+        (fun c => p < c ∧ c < d.endOf p ∧ d.isAttr c = false ∧ ∀ j, j < d.length → p < j → j < c → d.isAttr j = true)
+        (∀ j, j < d.length → p < j → j < d.endOf p → d.isAttr j = true)) &&
+  decide (∀ i, i < d.length → d.isAttr i = false → onOpt (d.nextSibling i)
+        (fun k => k = d.endOf i ∧ onOpt (d.parentOf i) (fun p => k < d.endOf p) False)
+        (onOpt (d.parentOf i) (fun p => d.endOf p = d.endOf i) True)) &&
+  decide (∀ i, i < d.length → onOpt (d.parentOf i)
+        (fun p => p < i ∧ i < d.endOf p ∧ d.isAttr p = false ∧ ∀ x, x < d.length → p < x → x < i → d.endOf x ≤ i) True) &&
+  decide (∀ i, i < d.length → d.isAttr i = false → d.endOf i < d.length → d.isAttr (d.endOf i) = false) &&
+  decide (∀ n, n < d.length → ∀ m, m < d.length → (d.ancestors m).contains n = (decide (n < m) && decide (m < d.endOf n)))
+
+theorem wf_of_wfB (d : Doc) (h : d.wfB = true) : WF d := by
+  simp only [wfB, Bool.and_eq_true, decide_eq_true_eq] at h
+  obtain ⟨⟨⟨⟨⟨⟨h1, h4⟩, h2⟩, h3⟩, h5⟩, h8⟩, hA⟩ := h
+  exact ⟨h1, h4, h2, h3, h5, h8, hA⟩
+
+end Doc
+end XalanModel.C02
